@@ -78,6 +78,7 @@ FAMILIES = {
     "renamed-entry-treated-as-file": "a renamed entry whose kind changed, or a renamed symlink whose target changed, is re-uploaded as a (empty) regular file",
     "renamed-file-mode-change-lost": "a file renamed and chmod-ed in one revision (same text) keeps its old executable bit on the remote",
     "rename-across-ignore-boundary-nosuchfile": "a rename with exactly one side ignored addresses a remote path that was never uploaded: NoSuchFile",
+    "rename-across-ignore-boundary-moves-ignored-content": "a directory renamed from an ignored to a non-ignored path takes the ignored remote content below it along: the remote gains paths the tree does not have",
     "rename-onto-deleted-directory-readerror": "an entry takes the path of a directory removed in the same delta; the deferred rmdir runs after finish_renames: ReadError",
     "delete-directory-with-ignored-content-directorynotempty": "a removed directory still holds ignored remote content: the deferred rmdir raises DirectoryNotEmpty",
     "full-upload-keeps-stale-paths": "upload --full onto an existing remote never deletes paths that left the tree",
@@ -425,6 +426,12 @@ def classify(mode, err, delta, ents, before, names, got, exp, from_kinds):
             return "delete-directory-with-ignored-content-directorynotempty"
         if err == "NoSuchFile" and any(is_ign(names, o) != is_ign(names, n) for o, n in ren):
             return "rename-across-ignore-boundary-nosuchfile"
+        if err is None:
+            crossing = [n for o, n in ren if is_ign(names, o) and not is_ign(names, n)]
+            extra = set(got) - set(exp)
+            if crossing and extra and all(got.get(p) == v for p, v in exp.items()) \
+                    and all(any(p.startswith(n + "/") for n in crossing) for p in extra):
+                return "rename-across-ignore-boundary-moves-ignored-content"
         if any(from_kinds.get(c.path[0]) != tree.get(c.path[1], ("?",))[0]
                or (c.changed_content and tree.get(c.path[1], ("?",))[0] != "f")
                for c in delta.renamed if (c.path[0], c.path[1]) in ren):
